@@ -1,25 +1,38 @@
 import SignaloModel.Proofs.BridgeMeanVar
 import SignaloModel.Proofs.DiffIntVarProofs
+import SignaloModel.Proofs.RegMeanVar
 /-!
 # C16 — Mean-variance filters: exact mean, variance non-negative and offset-invariant
 
-Property theorems for C16 (statements are printed by `#check`, axioms by `#check @DIV.emv_mean_eq
+The property theorems for C16: `#check` prints each statement, `#print axioms` its axioms;
+`bin/check C16` re-elaborates this file on every run and audits the axiom lists.
+-/
+open SignaloModel
+
+#check @Registry.emeanVar_registry_offset
+#check @Registry.emeanVar_registry_nonneg
+#check @Registry.meanVar_registry_const
+#check @Registry.meanVar_registry_nonneg
+#check @Registry.emeanVar_registry_mean_eq
+#check @Registry.meanVar_registry_mean_eq
+#check @DIV.emv_mean_eq
 #check @DIV.smv_mean_eq
 #check @DIV.smv_var_nonneg
 #check @DIV.smv_var_const
 #check @DIV.smv_offset_counterexample
-#print axioms`;
-`bin/check C16` re-elaborates this file on every run and audits the axiom lists).
--/
-open SignaloModel
-
 #check @DIV.emv_var_nonneg
 #check @DIV.emv_offset
 
-#print axioms DIV.emv_var_nonneg
-#print axioms DIV.emv_offset
+#print axioms Registry.emeanVar_registry_offset
+#print axioms Registry.emeanVar_registry_nonneg
+#print axioms Registry.meanVar_registry_const
+#print axioms Registry.meanVar_registry_nonneg
+#print axioms Registry.emeanVar_registry_mean_eq
+#print axioms Registry.meanVar_registry_mean_eq
 #print axioms DIV.emv_mean_eq
 #print axioms DIV.smv_mean_eq
 #print axioms DIV.smv_var_nonneg
 #print axioms DIV.smv_var_const
 #print axioms DIV.smv_offset_counterexample
+#print axioms DIV.emv_var_nonneg
+#print axioms DIV.emv_offset
